@@ -60,9 +60,15 @@ fn hostile_meta(r: &mut Rng, cfg: &mut Cfg) {
 pub fn gen_case2(prop: &str, tier: Tier, _seed: u64, idx: u64, r: &mut Rng) -> Option<Case> {
     let thorough = tier == Tier::Thorough;
     Some(match prop {
-        "C12" => match r.below(20) {
+        "C12" => match r.below(21) {
+            20 => {
+                // ADTS declared-length sweep near the header sizes and at random places
+                let lo = if r.chance(2, 3) { 0 } else { r.below(8100) as u32 };
+                Case::Adts { protection_absent: r.chance(1, 2), delta: *r.pick(&[-1i32, 0, 1, 100]), lo, hi: lo + 24 }
+            }
             0..=8 => {
-                let o = GenOpts { hostile_pct: 50, hostile_cfg_pct: 25, reorder_pct: 30, audio_pct: 70, meta_pct: 30, encode_pct: 35, finish_games: true, max_video: 8, max_audio: 8, ..Default::default() };
+                let small = std::env::var("VH_SMALL").is_ok();
+                let o = GenOpts { hostile_pct: 50, hostile_cfg_pct: 25, reorder_pct: 30, audio_pct: 70, meta_pct: 30, encode_pct: 35, finish_games: true, max_video: if small { 3 } else { 8 }, max_audio: if small { 2 } else { 8 }, ..Default::default() };
                 let mut cfg = gen_cfg(r, &o);
                 if r.chance(1, 3) {
                     hostile_meta(r, &mut cfg);
@@ -172,12 +178,20 @@ pub fn gen_case2(prop: &str, tier: Tier, _seed: u64, idx: u64, r: &mut Rng) -> O
         }
         "C16" => return Some(c16_case(r, idx)),
         "C17" => {
-            let o = GenOpts { hostile_pct: 10, reorder_pct: 30, audio_pct: 60, meta_pct: 40, encode_pct: 25, consuming: true, max_video: 8, max_audio: 8, ..Default::default() };
-            match idx % 4 {
+            let small = std::env::var("VH_SMALL").is_ok();
+            let threads_only = std::env::var("VH_THREADS_ONLY").is_ok() || small;
+            let mut o = GenOpts { hostile_pct: 10, reorder_pct: 30, audio_pct: 60, meta_pct: 40, encode_pct: 25, consuming: true, max_video: 8, max_audio: 8, ..Default::default() };
+            if small {
+                o.max_video = 3;
+                o.max_audio = 2;
+                o.decorate = false;
+            }
+            match if threads_only { 0 } else { idx % 4 } {
                 0 | 1 => {
-                    let n = r.range(4, 24) as usize;
+                    let n = if small { 3 } else { r.range(4, 24) as usize };
                     let hs: Vec<History> = (0..n).map(|_| gen_history(r, &o)).collect();
-                    Case::Threads { hs, threads: *r.pick(&[1u32, 2, 4, 8, 16]), seed: r.next_u64() }
+                    let threads = if small { 3 } else { *r.pick(&[1u32, 2, 4, 8, 16]) };
+                    Case::Threads { hs, threads, seed: r.next_u64() }
                 }
                 2 => Case::Hist { h: gen_history(r, &o), side: Side::default() },
                 _ => {
@@ -650,6 +664,13 @@ pub fn eval_case2(prop: &str, case: &Case, obs: &mut Obs) -> Vec<Violation> {
             obs.nontrivial(case.hash());
             obs.sample(case.brief());
             ps.into_iter().map(|(name, m, l)| mon::c12::panic_violation(&name, &m, &l, &case.brief())).collect()
+        }
+        ("C12", Case::Adts { protection_absent, delta, lo, hi }) => {
+            let (h, _frames) = mon::c14::adts_history(*protection_absent, *delta, *lo, *hi);
+            let (ex, _s) = run(&h, &ExecOpts { render_errors: true, ..Default::default() });
+            obs.nontrivial(case.hash());
+            obs.count("adts_length_sweeps", 1);
+            mon::c12::check_exec(&h, &ex, obs)
         }
         ("C13", Case::FaultAll { h, level }) => {
             obs.evaluations -= 1; // counted per fault run inside
